@@ -46,4 +46,39 @@ def gen_reader_prune(S, info):
     return '\n'.join(out)
 
 
-SECTIONS = [('ReaderPrune', gen_reader_prune)]
+def gen_memo_shape(S, info):
+    """the shape of `BSEMemoize.__call__`: what is filed in the cache after a miss, what a hit returns, what a miss returns, and the two
+    ways round the cache (memoisation disabled, arguments that do not bind).  Anything the patterns below do not recognise is `other`."""
+    cls = next((n for n in S.tree('memo.py').body if isinstance(n, ast.ClassDef) and n.name == 'BSEMemoize'), None)
+    if cls is None:
+        raise GenError('memo.py: class BSEMemoize not found')
+    call = next((n for n in cls.body if isinstance(n, ast.FunctionDef) and n.name == '__call__'), None)
+    if call is None:
+        raise GenError('memo.py: BSEMemoize.__call__ not found')
+    body = [n for n in call.body if not (isinstance(n, ast.Expr) and isinstance(n.value, ast.Constant))]
+    u = ast.unparse
+    direct = 'self.__f(*args, **kwargs)'
+
+    def is_ret(n, text):
+        return isinstance(n, ast.Return) and n.value is not None and u(n.value) == text
+    store, hit, miss, by_dis, by_key = 'other', 'other', 'other', False, False
+    if len(body) == 7:
+        a, b, c, d, e, f, g = body
+        by_dis = isinstance(a, ast.If) and u(a.test) == 'not memoize_enabled' and len(a.body) == 1 and is_ret(a.body[0], direct) and not a.orelse
+        keyed = isinstance(b, ast.Assign) and u(b.targets[0]) == 'arg_key' and u(b.value) == '_make_key(self.args_spec, *args, **kwargs)'
+        by_key = isinstance(c, ast.If) and u(c.test) == 'arg_key is None' and len(c.body) == 1 and is_ret(c.body[0], direct) and not c.orelse
+        if keyed and isinstance(d, ast.If) and u(d.test) == 'arg_key in self.__memo' and len(d.body) == 1 and not d.orelse and isinstance(d.body[0], ast.Return):
+            hit = {'pickle.loads(self.__memo[arg_key])': 'unpickled', 'self.__memo[arg_key]': 'stored'}.get(u(d.body[0].value), 'other')
+        computed = isinstance(e, ast.Assign) and u(e.targets[0]) == 'ret' and u(e.value) == direct
+        if keyed and computed and isinstance(f, ast.Assign) and u(f.targets[0]) == 'self.__memo[arg_key]':
+            store = {'pickle.dumps(ret)': 'pickled', 'ret': 'live'}.get(u(f.value), 'other')
+        if computed and is_ret(g, 'ret'):
+            miss = 'computed'
+    info['memo_shape'] = dict(store=store, hit=hit, miss=miss)
+    b2 = lambda x: 'true' if x else 'false'
+    return '\n'.join(['import BSEModel.MemoHeap', '/-! generated from memo.py (BSEMemoize.__call__) — do not edit -/', 'namespace BSE.Gen.MemoShape', '',
+                      'def callShape : BSE.MemoHeap.Shape := ⟨.%s, .%s, .%s, %s, %s⟩' % (store, hit, miss, b2(by_dis), b2(by_key)), '',
+                      'end BSE.Gen.MemoShape', ''])
+
+
+SECTIONS = [('MemoShape', gen_memo_shape), ('ReaderPrune', gen_reader_prune)]
